@@ -148,6 +148,11 @@ func i64s(xs ...int) []int64 {
 	return o
 }
 
+// anyDT: element types for operators that only move data around.
+func anyDT(r *rng.R) val.DT {
+	return pick(r, val.Float32, val.Float32, val.Float32, val.Float64, val.Int64, val.Int32, val.Bool, val.Uint8, val.Int16)
+}
+
 // ---------- templates ----------
 
 var unaryFloat = []string{"Abs", "Acos", "Acosh", "Asin", "Asinh", "Atan", "Atanh", "Cos", "Cosh", "Sin", "Sinh", "Tan", "Tanh", "Relu", "Sigmoid", "Softmax", "LogSoftmax"}
@@ -227,13 +232,16 @@ func Templates() []Template {
 	}
 	reduce := func(op string) Template {
 		return Template{Name: "reduce/" + op, Sensitive: true, Gen: func(rw, rd *rng.R, b int) OpCase {
-			dt := pick(rw, val.Float32, val.Float32, val.Int64, val.Int32)
+			dt := pick(rw, val.Float32, val.Float32, val.Int64, val.Int32, val.Float64, val.Uint32, val.Uint64)
 			x := RandOf(rd, dt, []int{b, 3, 2})
 			var attrs []mb.Attr
 			if op == "ArgMax" {
 				attrs = append(attrs, mb.AI("axis", int64(pick(rw, 0, 1, 2, -1))))
 				if rw.Chance(2, 3) {
 					attrs = append(attrs, mb.AI("keepdims", int64(rw.Intn(2))))
+				}
+				if rw.Chance(1, 4) {
+					attrs = append(attrs, mb.AI("select_last_index", 0))
 				}
 			} else {
 				attrs = append(attrs, mb.AInts("axes", pick(rw, []int64{1}, []int64{2}, []int64{1, 2}, []int64{-1}, []int64{0})...))
@@ -251,15 +259,16 @@ func Templates() []Template {
 		return OpCase{Op: "Cast", Attrs: []mb.Attr{mb.AI("to", int64(to))}, Operands: []Operand{data(RandOf(rd, from, []int{b, 3}), 0)}, Outs: []string{"y"}}
 	}})
 	ts = append(ts, Template{Name: "Concat", Sensitive: true, Gen: func(rw, rd *rng.R, b int) OpCase {
+		dt := anyDT(rw)
 		n := rw.Range(1, 3)
 		axis := pick(rw, 1, -1, 2)
-		ops := []Operand{data(RandF32(rd, []int{b, 2, 3}, -2, 2), 0)}
+		ops := []Operand{data(RandOf(rd, dt, []int{b, 2, 3}), 0)}
 		for i := 1; i < n; i++ {
 			if rw.Bool() {
-				ops = append(ops, data(RandF32(rd, []int{b, 2, 3}, -2, 2), 0))
+				ops = append(ops, data(RandOf(rd, dt, []int{b, 2, 3}), 0))
 			} else {
 				// a weight can only be concatenated when the batch is fixed; use axis on which it may differ
-				ops = append(ops, data(RandF32(rd, []int{b, 2, 3}, -1, 1), 0))
+				ops = append(ops, data(RandOf(rd, dt, []int{b, 2, 3}), 0))
 			}
 		}
 		return OpCase{Op: "Concat", Attrs: []mb.Attr{mb.AI("axis", int64(axis))}, Operands: ops, Outs: []string{"y"}}
@@ -322,6 +331,9 @@ func Templates() []Template {
 		if rw.Chance(1, 4) {
 			attrs = append(attrs, mb.AInts("dilations", rep(int64(rw.Range(1, 2)))...))
 		}
+		if rw.Chance(1, 5) {
+			attrs = append(attrs, mb.AI("group", 1))
+		}
 		if rw.Chance(1, 4) {
 			if twoD {
 				attrs = append(attrs, mb.AInts("kernel_shape", 2, 2))
@@ -345,13 +357,15 @@ func Templates() []Template {
 		return OpCase{Op: "Expand", Operands: []Operand{weight(RandF32(rw, []int{3}, -2, 2)), fixed(I64([]int{3}, 2, 2, 3))}, Outs: []string{"y"}}
 	}})
 	ts = append(ts, Template{Name: "Flatten", Gen: func(rw, rd *rng.R, b int) OpCase {
+		dt := anyDT(rw)
 		var attrs []mb.Attr
 		if rw.Bool() {
 			attrs = []mb.Attr{mb.AI("axis", int64(pick(rw, 0, 1, 2, -1)))}
 		}
-		return OpCase{Op: "Flatten", Attrs: attrs, Operands: []Operand{data(RandF32(rd, []int{b, 2, 3}, -2, 2), 0)}, Outs: []string{"y"}}
+		return OpCase{Op: "Flatten", Attrs: attrs, Operands: []Operand{data(RandOf(rd, dt, []int{b, 2, 3}), 0)}, Outs: []string{"y"}}
 	}})
 	ts = append(ts, Template{Name: "Gather", Sensitive: true, Gen: func(rw, rd *rng.R, b int) OpCase {
+		dt := anyDT(rw)
 		axis := pick(rw, 1, 2, -1)
 		idxShape := pick(rw, []int{2}, []int{1}, []int{2, 2})
 		lim := 2
@@ -359,7 +373,7 @@ func Templates() []Template {
 			lim = 3
 		}
 		idx := RandInt(rw, pick(rw, val.Int64, val.Int32), idxShape, -lim, lim-1)
-		return OpCase{Op: "Gather", Attrs: []mb.Attr{mb.AI("axis", int64(axis))}, Operands: []Operand{data(RandF32(rd, []int{b, 3, 2}, -2, 2), 0), fixed(idx)}, Outs: []string{"y"}}
+		return OpCase{Op: "Gather", Attrs: []mb.Attr{mb.AI("axis", int64(axis))}, Operands: []Operand{data(RandOf(rd, dt, []int{b, 3, 2}), 0), fixed(idx)}, Outs: []string{"y"}}
 	}})
 	ts = append(ts, Template{Name: "Gather/weight-table", Sensitive: true, Gen: func(rw, rd *rng.R, b int) OpCase {
 		// embedding lookup: the table is a weight, the indices are the caller's
@@ -450,18 +464,22 @@ func Templates() []Template {
 		return OpCase{Op: "Scaler", Attrs: []mb.Attr{mb.AFloats("offset", off...), mb.AFloats("scale", sc...)}, Operands: []Operand{x}, Outs: []string{"y"}}
 	}})
 	ts = append(ts, Template{Name: "Reshape", Sensitive: true, Gen: func(rw, rd *rng.R, b int) OpCase {
+		dt := anyDT(rw)
 		shp := pick(rw, []int64{-1, 6}, []int64{0, 3, 2}, []int64{0, -1}, []int64{-1, 2, 3})
-		return OpCase{Op: "Reshape", Operands: []Operand{data(RandF32(rd, []int{b, 2, 3}, -2, 2), 0), fixed(I64([]int{len(shp)}, shp...))}, Outs: []string{"y"}}
+		return OpCase{Op: "Reshape", Operands: []Operand{data(RandOf(rd, dt, []int{b, 2, 3}), 0), fixed(I64([]int{len(shp)}, shp...))}, Outs: []string{"y"}}
 	}})
 	ts = append(ts, Template{Name: "Reshape/batch-bound", Sensitive: true, Gen: func(rw, rd *rng.R, b int) OpCase {
+		dt := anyDT(rw)
 		// a target shape that only fits batch 2: other batch sizes fail inside Apply
-		return OpCase{Op: "Reshape", Operands: []Operand{data(RandF32(rd, []int{b, 2, 3}, -2, 2), 0), fixed(I64([]int{2}, 4, 3))}, Outs: []string{"y"}}
+		return OpCase{Op: "Reshape", Operands: []Operand{data(RandOf(rd, dt, []int{b, 2, 3}), 0), fixed(I64([]int{2}, 4, 3))}, Outs: []string{"y"}}
 	}})
 	ts = append(ts, Template{Name: "Shape", Gen: func(rw, rd *rng.R, b int) OpCase {
-		return OpCase{Op: "Shape", Operands: []Operand{data(RandF32(rd, []int{b, 2, 3}, -2, 2), 0)}, Outs: []string{"y"}}
+		dt := anyDT(rw)
+		return OpCase{Op: "Shape", Operands: []Operand{data(RandOf(rd, dt, []int{b, 2, 3}), 0)}, Outs: []string{"y"}}
 	}})
 	ts = append(ts, Template{Name: "Slice", Sensitive: true, Gen: func(rw, rd *rng.R, b int) OpCase {
-		x := data(RandF32(rd, []int{b, 4, 3}, -2, 2), 0)
+		dt := anyDT(rw)
+		x := data(RandOf(rd, dt, []int{b, 4, 3}), 0)
 		idt := pick(rw, val.Int64, val.Int32)
 		mk := func(xs ...int) Operand { return fixed(RandIntFixed(idt, xs...)) }
 		switch rw.Intn(4) {
@@ -475,19 +493,26 @@ func Templates() []Template {
 		return OpCase{Op: "Slice", Operands: []Operand{x, mk(0, 0, 1), mk(1, 2, 3)}, Outs: []string{"y"}}
 	}})
 	ts = append(ts, Template{Name: "Squeeze", Sensitive: true, Gen: func(rw, rd *rng.R, b int) OpCase {
-		x := data(RandF32(rd, []int{b, 1, 3, 1}, -2, 2), 0)
+		dt := anyDT(rw)
+		x := data(RandOf(rd, dt, []int{b, 1, 3, 1}), 0)
+		if rw.Chance(1, 4) {
+			// axes input absent: every extent-1 axis is squeezed (also the batch axis when the batch is 1)
+			return OpCase{Op: "Squeeze", Operands: []Operand{x}, Outs: []string{"y"}}
+		}
 		if rw.Bool() {
 			return OpCase{Op: "Squeeze", Operands: []Operand{x, fixed(I64([]int{1}, int64(pick(rw, 1, 3, -1))))}, Outs: []string{"y"}}
 		}
 		return OpCase{Op: "Squeeze", Operands: []Operand{x, fixed(I64([]int{2}, 1, 3))}, Outs: []string{"y"}}
 	}})
 	ts = append(ts, Template{Name: "Unsqueeze", Sensitive: true, Gen: func(rw, rd *rng.R, b int) OpCase {
+		dt := anyDT(rw)
 		ax := pick(rw, []int64{1}, []int64{0, 3}, []int64{-1}, []int64{2, 1})
-		return OpCase{Op: "Unsqueeze", Operands: []Operand{data(RandF32(rd, []int{b, 3}, -2, 2), 0), fixed(I64([]int{len(ax)}, ax...))}, Outs: []string{"y"}}
+		return OpCase{Op: "Unsqueeze", Operands: []Operand{data(RandOf(rd, dt, []int{b, 3}), 0), fixed(I64([]int{len(ax)}, ax...))}, Outs: []string{"y"}}
 	}})
 	ts = append(ts, Template{Name: "Transpose", Gen: func(rw, rd *rng.R, b int) OpCase {
+		dt := anyDT(rw)
 		perm := pick(rw, []int64{0, 2, 1}, []int64{2, 1, 0}, []int64{1, 0, 2})
-		return OpCase{Op: "Transpose", Attrs: []mb.Attr{mb.AInts("perm", perm...)}, Operands: []Operand{data(RandF32(rd, []int{b, 2, 3}, -2, 2), 0)}, Outs: []string{"y"}}
+		return OpCase{Op: "Transpose", Attrs: []mb.Attr{mb.AInts("perm", perm...)}, Operands: []Operand{data(RandOf(rd, dt, []int{b, 2, 3}), 0)}, Outs: []string{"y"}}
 	}})
 	ts = append(ts, Template{Name: "Transpose/weight", Sensitive: true, Gen: func(rw, rd *rng.R, b int) OpCase {
 		return OpCase{Op: "Transpose", Attrs: []mb.Attr{mb.AInts("perm", 1, 0)}, Operands: []Operand{weight(RandF32(rw, []int{2, 3}, -2, 2))}, Outs: []string{"y"}}
@@ -533,6 +558,8 @@ type Recurrent struct {
 	// InputForget: LSTM attribute input_forget (-1 = attribute absent); Direction: explicit "forward" attribute
 	InputForget int  `json:"input_forget"`
 	Direction   bool `json:"direction"`
+	// ActAlphaBeta: activation_alpha / activation_beta lists present (parsed by the operators)
+	ActAlphaBeta bool `json:"act_alpha_beta"`
 }
 
 func gates(kind string) int {
@@ -564,6 +591,7 @@ func DrawRecurrent(r *rng.R, kind string) Recurrent {
 		c.InputForget = r.Intn(2)
 	}
 	c.Direction = r.Chance(1, 5)
+	c.ActAlphaBeta = r.Chance(1, 8)
 	if r.Chance(1, 4) {
 		switch kind {
 		case "RNN":
@@ -592,6 +620,9 @@ func (c Recurrent) OpCase(rw, rd *rng.R, seq, batch int, stateAsData bool) OpCas
 	}
 	if c.Direction {
 		attrs = append(attrs, mb.AS("direction", "forward"))
+	}
+	if c.ActAlphaBeta {
+		attrs = append(attrs, mb.AFloats("activation_alpha", 0.5, 0.25), mb.AFloats("activation_beta", 0.125))
 	}
 	X := RandF32(rd, []int{seq, batch, c.Input}, -1, 1)
 	W := RandF32(rw, []int{1, g * c.Hidden, c.Input}, -1, 1)
